@@ -1,5 +1,619 @@
+//! Streaming family (C19): producer → relay → receiver over crossbeam channels.
+//!
+//! Schedule control: the producer `Bdd` lives on its own thread and sends into a ZERO-capacity
+//! channel, so it blocks inside `Bdd::node` at every single node creation until the harness takes
+//! the message.  The harness forwards messages one by one into the relay's (unbounded) channel
+//! (`sdeliver K`) and polls in between, so every cut of the message stream can be placed before
+//! every poll, deterministically, while the producer is really suspended in mid-operation.
+//!
+//! snew | screate <op> | sdeliver K | srelaypoll T | spoll T | sprodpoll T | sjoin | sdump
+//! ssoak SEED <ops>   free-running two-thread run (producer thread sends into unbounded channels,
+//!                    the main thread polls relay and receiver at random handles meanwhile)
+//! Answers as documented in `AdfObdd/Drv/Stream.lean`.
 use crate::{rng::Rng, Out};
-pub fn gen(_r: &mut Rng, _cases: usize, _size: usize,  _out: &mut Out) {}
+
+fn op_line(r: &mut Rng, nv: usize, len: usize) -> String {
+    let pick = |r: &mut Rng, len: usize| -> usize {
+        if len > 4 && r.chance(2, 3) {
+            len - 1 - r.usize(4.min(len))
+        } else {
+            r.usize(len)
+        }
+    };
+    let a = pick(r, len);
+    let b = pick(r, len);
+    match r.below(15) {
+        0 | 1 => format!("var {}", r.usize(nv)),
+        2 | 3 => format!("not #{a}"),
+        4 | 5 => format!("and #{a} #{b}"),
+        6 | 7 => format!("or #{a} #{b}"),
+        8 => format!("imp #{a} #{b}"),
+        9 | 10 => format!("iff #{a} #{b}"),
+        11 | 12 => format!("xor #{a} #{b}"),
+        _ => format!("restrict #{a} {} {}", r.usize(nv), r.below(2)),
+    }
+}
+
+fn target(r: &mut Rng) -> String {
+    match r.below(12) {
+        0..=3 => "+0".to_string(),              // the very next handle
+        4 | 5 => format!("+{}", r.range(1, 4)), // further ahead
+        6 | 7 => format!("-{}", r.range(1, 3)), // already present
+        8 => "18446744073709551615".to_string(),
+        9 => r.usize(3).to_string(),
+        _ => r.range(2, 30).to_string(),
+    }
+}
+
+fn program(r: &mut Rng, nv: usize, nops: usize) -> Vec<String> {
+    let mut ops = Vec::new();
+    let mut len = 2usize;
+    let mut vs: Vec<usize> = (0..nv).collect();
+    for i in (1..vs.len()).rev() {
+        vs.swap(i, r.usize(i + 1));
+    }
+    let k = r.range(1, nv);
+    for v in vs.iter().take(k) {
+        ops.push(format!("var {v}"));
+        len += 1;
+    }
+    for _ in 0..nops {
+        ops.push(op_line(r, nv, len));
+        len += 1;
+    }
+    ops
+}
+
+/// `size` = number of variables (0 → 5).  Schedules: lockstep (one message, then polls, as in the
+/// design spike), random interleaving, burst (whole program first, then cuts), and — every 8th
+/// case, or every case when `size >= 100` — a free-running two-thread soak.
+pub fn gen(r: &mut Rng, cases: usize, size: usize, out: &mut Out) {
+    let soak_only = size >= 100;
+    let nv = match size % 100 {
+        0 => 5,
+        s => s,
+    };
+    for case in 0..cases {
+        out.line(&format!("case stream-{case}"));
+        let soak = soak_only || case % 8 == 7;
+        let nops = if soak { r.range(10, 60) } else { r.range(2, 14) };
+        let prog = program(r, nv.max(2), nops);
+        if soak {
+            let enc = prog.iter().map(|o| o.replace(' ', ",")).collect::<Vec<_>>().join(";");
+            out.line(&format!("ssoak {} {}", r.below(1 << 30), enc));
+            continue;
+        }
+        out.line("snew");
+        let mode = r.below(3);
+        match mode {
+            0 => {
+                // lockstep: after every operation deliver message by message, poll around each cut
+                for o in &prog {
+                    out.line(&format!("screate {o}"));
+                    let rounds = r.range(0, 4);
+                    for _ in 0..rounds {
+                        out.line("sdeliver 1");
+                        if r.chance(3, 4) {
+                            out.line(&format!("srelaypoll {}", if r.bool() { "+0".to_string() } else { target(r) }));
+                        }
+                        if r.chance(3, 4) {
+                            out.line("spoll +1"); // not there yet
+                            out.line("spoll +0");
+                        }
+                        if r.chance(1, 3) {
+                            out.line(&format!("spoll {}", target(r)));
+                        }
+                    }
+                }
+            }
+            1 => {
+                // random interleaving of all event kinds
+                let mut i = 0;
+                while i < prog.len() {
+                    match r.below(10) {
+                        0..=3 => {
+                            out.line(&format!("screate {}", prog[i]));
+                            i += 1;
+                        }
+                        4 | 5 => out.line(&format!("sdeliver {}", r.usize(4))),
+                        6 | 7 => out.line(&format!("srelaypoll {}", target(r))),
+                        8 => out.line(&format!("spoll {}", target(r))),
+                        _ => match r.below(3) {
+                            0 => out.line("sjoin"),
+                            1 => out.line(&format!("sprodpoll {}", target(r))),
+                            _ => out.line("sdump"),
+                        },
+                    }
+                }
+            }
+            _ => {
+                // burst: the whole program, then cut the stream into random chunks
+                for o in &prog {
+                    out.line(&format!("screate {o}"));
+                }
+                for _ in 0..r.range(2, 12) {
+                    out.line(&format!("sdeliver {}", r.range(0, 3)));
+                    out.line(&format!("srelaypoll {}", target(r)));
+                    out.line(&format!("spoll {}", target(r)));
+                }
+            }
+        }
+        out.line("sjoin");
+        if r.chance(1, 2) {
+            out.line("sdump"); // usually not drained yet
+        }
+        // drain: everything pending, relay and receiver ask for a handle that never comes
+        out.line("sdeliver 1000000");
+        out.line("srelaypoll 18446744073709551615");
+        out.line("spoll 18446744073709551615");
+        out.line("sdump");
+    }
+}
+
+#[cfg(not(feature = "frontend"))]
 #[derive(Default)]
 pub struct Exec {}
-impl Exec { pub fn exec(&mut self, _ws: &[&str], _l: &str, _out: &mut Out) -> bool { false } }
+#[cfg(not(feature = "frontend"))]
+impl Exec {
+    pub fn exec(&mut self, _ws: &[&str], _l: &str, _out: &mut Out) -> bool {
+        false
+    }
+}
+
+#[cfg(feature = "frontend")]
+pub use imp::Exec;
+
+#[cfg(feature = "frontend")]
+mod imp {
+    use crate::fam_bdd::dump_nodes;
+    use crate::{rng::Rng, Out};
+    use adf_bdd::datatypes::{BddNode, Term, Var};
+    use adf_bdd::obdd::Bdd;
+    use crossbeam_channel::{bounded, select, unbounded, Receiver, Sender};
+    use std::collections::VecDeque;
+    use std::panic::{catch_unwind, AssertUnwindSafe};
+
+    enum Cmd {
+        Op(Vec<String>),
+        Poll(usize),
+        Len,
+        Dump,
+        Quit,
+    }
+    enum Reply {
+        Done(Option<Term>), // None = malformed request
+        Panic,
+        Poll(bool, usize),
+        Len(usize),
+        Table(Vec<BddNode>),
+    }
+
+    fn idx(s: &str) -> Option<usize> {
+        s.strip_prefix('#')?.parse().ok()
+    }
+
+    pub(super) fn apply_op(bdd: &mut Bdd, hist: &[Term], ws: &[&str]) -> Option<Term> {
+        let h = |s: &str| -> Option<Term> { hist.get(idx(s)?).copied() };
+        Some(match (ws.first().copied()?, ws.len()) {
+            ("var", 2) => bdd.variable(Var(ws[1].parse().ok()?)),
+            ("const", 2) => Bdd::constant(ws[1] == "1"),
+            ("not", 2) => bdd.not(h(ws[1])?),
+            ("and", 3) => bdd.and(h(ws[1])?, h(ws[2])?),
+            ("or", 3) => bdd.or(h(ws[1])?, h(ws[2])?),
+            ("imp", 3) => bdd.imp(h(ws[1])?, h(ws[2])?),
+            ("iff", 3) => bdd.iff(h(ws[1])?, h(ws[2])?),
+            ("xor", 3) => bdd.xor(h(ws[1])?, h(ws[2])?),
+            ("restrict", 4) => bdd.restrict(h(ws[1])?, Var(ws[2].parse().ok()?), ws[3] == "1"),
+            _ => return None,
+        })
+    }
+
+    fn producer_thread(node_tx: Sender<BddNode>, cmd_rx: Receiver<Cmd>, reply_tx: Sender<Reply>) {
+        let mut bdd = Bdd::with_sender(node_tx);
+        let mut hist = vec![Term::BOT, Term::TOP];
+        while let Ok(cmd) = cmd_rx.recv() {
+            let reply = match cmd {
+                Cmd::Op(ws) => {
+                    let w: Vec<&str> = ws.iter().map(|s| s.as_str()).collect();
+                    match catch_unwind(AssertUnwindSafe(|| apply_op(&mut bdd, &hist, &w))) {
+                        Ok(Some(t)) => {
+                            hist.push(t);
+                            Reply::Done(Some(t))
+                        }
+                        Ok(None) => {
+                            hist.push(Term::BOT);
+                            Reply::Done(None)
+                        }
+                        Err(_) => {
+                            hist.push(Term::BOT);
+                            Reply::Panic
+                        }
+                    }
+                }
+                Cmd::Poll(t) => {
+                    let f = bdd.recv(Term(t));
+                    Reply::Poll(f, bdd.nodes.len())
+                }
+                Cmd::Len => Reply::Len(bdd.nodes.len()),
+                Cmd::Dump => Reply::Table(bdd.nodes.clone()),
+                Cmd::Quit => break,
+            };
+            if reply_tx.send(reply).is_err() {
+                break;
+            }
+        }
+    }
+
+    struct Sess {
+        cmd_tx: Sender<Cmd>,
+        node_rx: Receiver<BddNode>,
+        reply_rx: Receiver<Reply>,
+        handle: Option<std::thread::JoinHandle<()>>,
+        inflight: bool,
+        pending: VecDeque<BddNode>,
+        /// every node taken from the producer so far, in order
+        log: Vec<BddNode>,
+        r1tx: Sender<BddNode>,
+        r2probe: Sender<BddNode>,
+        relay: Bdd,
+        recv: Bdd,
+        hist: Vec<String>,
+        bad: bool,
+    }
+
+    impl Sess {
+        fn new() -> Self {
+            let (node_tx, node_rx) = bounded::<BddNode>(0);
+            let (cmd_tx, cmd_rx) = unbounded::<Cmd>();
+            let (reply_tx, reply_rx) = unbounded::<Reply>();
+            let handle = std::thread::spawn(move || producer_thread(node_tx, cmd_rx, reply_tx));
+            let (r1tx, r1rx) = unbounded::<BddNode>();
+            let (r2tx, r2rx) = unbounded::<BddNode>();
+            let r2probe = r2tx.clone();
+            Sess {
+                cmd_tx,
+                node_rx,
+                reply_rx,
+                handle: Some(handle),
+                inflight: false,
+                pending: VecDeque::new(),
+                log: Vec::new(),
+                r1tx,
+                r2probe,
+                relay: Bdd::with_sender_receiver(r2tx, r1rx),
+                recv: Bdd::with_receiver(r2rx),
+                hist: vec!["0".into(), "1".into()],
+                bad: false,
+            }
+        }
+
+        fn finish(&mut self, r: Reply) {
+            self.inflight = false;
+            match r {
+                Reply::Done(Some(t)) => self.hist.push(t.value().to_string()),
+                Reply::Done(None) => {
+                    self.bad = true;
+                    self.hist.push("bad".into())
+                }
+                _ => self.hist.push("panic".into()),
+            }
+        }
+
+        /// take one event from the suspended / running producer: a node or the end of the operation
+        fn pump(&mut self) -> Option<BddNode> {
+            select! {
+                recv(self.node_rx) -> m => {
+                    let m = m.expect("producer alive");
+                    self.log.push(m);
+                    Some(m)
+                }
+                recv(self.reply_rx) -> r => {
+                    let r = r.expect("producer alive");
+                    self.finish(r);
+                    None
+                }
+            }
+        }
+
+        /// let the running operation finish; its remaining messages are held back by the harness
+        fn join(&mut self) {
+            while self.inflight {
+                if let Some(n) = self.pump() {
+                    self.pending.push_back(n);
+                }
+            }
+        }
+
+        fn deliver(&mut self, k: usize) -> usize {
+            let mut n = 0;
+            while n < k {
+                if let Some(x) = self.pending.pop_front() {
+                    self.r1tx.send(x).expect("relay channel");
+                    n += 1;
+                } else if self.inflight {
+                    if let Some(x) = self.pump() {
+                        self.r1tx.send(x).expect("relay channel");
+                        n += 1;
+                    }
+                } else {
+                    break;
+                }
+            }
+            n
+        }
+
+        fn ask(&mut self, c: Cmd) -> Reply {
+            self.join();
+            self.cmd_tx.send(c).expect("producer alive");
+            self.reply_rx.recv().expect("producer alive")
+        }
+    }
+
+    impl Drop for Sess {
+        fn drop(&mut self) {
+            self.join();
+            let _ = self.cmd_tx.send(Cmd::Quit);
+            if let Some(h) = self.handle.take() {
+                let _ = h.join();
+            }
+        }
+    }
+
+    #[derive(Default)]
+    pub struct Exec {
+        s: Option<Sess>,
+    }
+
+    fn resolve(w: &str, len: usize) -> Option<usize> {
+        if let Some(d) = w.strip_prefix('+') {
+            Some(len + d.parse::<usize>().ok()?)
+        } else if let Some(d) = w.strip_prefix('-') {
+            Some(len.saturating_sub(d.parse::<usize>().ok()?))
+        } else {
+            w.parse().ok()
+        }
+    }
+
+    fn is_prefix(tbl: &[BddNode], log: &[BddNode]) -> bool {
+        tbl.len() >= 2
+            && tbl[0] == BddNode::bot_node()
+            && tbl[1] == BddNode::top_node()
+            && tbl.len() - 2 <= log.len()
+            && tbl[2..] == log[..tbl.len() - 2]
+    }
+
+    fn table(nodes: &[BddNode]) -> String {
+        nodes
+            .iter()
+            .map(|n| format!("{},{},{}", n.var().value(), n.lo().value(), n.hi().value()))
+            .collect::<Vec<_>>()
+            .join(";")
+    }
+
+    impl Exec {
+        pub fn exec(&mut self, ws: &[&str], l: &str, out: &mut Out) -> bool {
+            match ws[0] {
+                "snew" if ws.len() == 1 => {
+                    self.s = None; // joins the old producer first
+                    self.s = Some(Sess::new());
+                    out.line(l);
+                    true
+                }
+                "ssoak" if ws.len() == 3 => {
+                    out.line(l);
+                    out.flush();
+                    soak(ws[1].parse().unwrap_or(0), ws[2], out);
+                    true
+                }
+                "screate" | "sdeliver" | "srelaypoll" | "spoll" | "sprodpoll" | "sjoin" | "sdump" => {
+                    out.line(l);
+                    out.flush();
+                    let Some(s) = self.s.as_mut() else {
+                        out.line("= bad-request");
+                        return true;
+                    };
+                    match ws[0] {
+                        "screate" => {
+                            s.join();
+                            s.cmd_tx
+                                .send(Cmd::Op(ws[1..].iter().map(|x| x.to_string()).collect()))
+                                .expect("producer alive");
+                            s.inflight = true;
+                        }
+                        "sdeliver" if ws.len() == 2 => match ws[1].parse::<usize>() {
+                            Ok(k) => {
+                                let n = s.deliver(k);
+                                out.line(&format!("= delivered {n}"));
+                            }
+                            Err(_) => out.line("= bad-request"),
+                        },
+                        "srelaypoll" | "spoll" if ws.len() == 2 => {
+                            let relay = ws[0] == "srelaypoll";
+                            let len = if relay { s.relay.nodes.len() } else { s.recv.nodes.len() };
+                            match resolve(ws[1], len) {
+                                Some(t) => {
+                                    let b = if relay { &mut s.relay } else { &mut s.recv };
+                                    match catch_unwind(AssertUnwindSafe(|| b.recv(Term(t)))) {
+                                        Ok(found) => {
+                                            let tbl = if relay { &s.relay.nodes } else { &s.recv.nodes };
+                                            out.line(&format!(
+                                                "= {} t={} len={}",
+                                                if found { "found" } else { "notfound" },
+                                                t,
+                                                tbl.len()
+                                            ));
+                                            out.line(&format!(
+                                                "~ prefix={} foundiff={}",
+                                                is_prefix(tbl, &s.log) as u8,
+                                                (found == (t < tbl.len())) as u8
+                                            ));
+                                        }
+                                        Err(_) => {
+                                            out.line("= panic");
+                                            out.line("~ panic");
+                                        }
+                                    }
+                                }
+                                None => {
+                                    out.line("= bad-request");
+                                    out.line("~ bad-request");
+                                }
+                            }
+                        }
+                        "sprodpoll" if ws.len() == 2 => {
+                            let len = match s.ask(Cmd::Len) {
+                                Reply::Len(n) => n,
+                                _ => 0,
+                            };
+                            match resolve(ws[1], len) {
+                                Some(t) => match s.ask(Cmd::Poll(t)) {
+                                    Reply::Poll(found, len2) => {
+                                        out.line(&format!(
+                                            "= {} t={} len={}",
+                                            if found { "found" } else { "notfound" },
+                                            t,
+                                            len2
+                                        ));
+                                        out.line(&format!("~ prefix=1 foundiff={}", (found == (t < len2)) as u8));
+                                    }
+                                    _ => {
+                                        out.line("= panic");
+                                        out.line("~ panic");
+                                    }
+                                },
+                                None => {
+                                    out.line("= bad-request");
+                                    out.line("~ bad-request");
+                                }
+                            }
+                        }
+                        "sjoin" => {
+                            s.join();
+                            if s.bad {
+                                out.line("= bad-request");
+                            } else {
+                                out.line(&format!("= hist {}", s.hist.join(" ")));
+                            }
+                        }
+                        "sdump" => {
+                            let p = match s.ask(Cmd::Dump) {
+                                Reply::Table(t) => t,
+                                _ => Vec::new(),
+                            };
+                            if s.bad {
+                                out.line("= bad-request");
+                                out.line("~ bad-request");
+                            } else {
+                                out.line(&format!(
+                                    "= P {} R {} V {}",
+                                    table(&p),
+                                    dump_nodes(&s.relay),
+                                    dump_nodes(&s.recv)
+                                ));
+                                let drained = s.pending.is_empty() && s.r1tx.is_empty() && s.r2probe.is_empty();
+                                out.line(&format!(
+                                    "~ drained={} relayeq={} recveq={}",
+                                    drained as u8,
+                                    (s.relay.nodes == p) as u8,
+                                    (s.recv.nodes == p) as u8
+                                ));
+                                out.line(&format!(
+                                    "# case stream nodes={} msgs={} ops={} relay={} recv={}",
+                                    p.len() - 2,
+                                    s.log.len(),
+                                    s.hist.len() - 2,
+                                    s.relay.nodes.len() - 2,
+                                    s.recv.nodes.len() - 2
+                                ));
+                            }
+                        }
+                        _ => out.line("= bad-request"),
+                    }
+                    true
+                }
+                _ => false,
+            }
+        }
+    }
+
+    /// free-running run: the producer thread executes the whole program sending into an unbounded
+    /// channel; meanwhile the main thread polls relay and receiver at random handles.  Checked at
+    /// every poll: answer ↔ handle present, receiver never ahead of the relay; at the end (producer
+    /// joined, both channels drained): every intermediate table was a prefix of the final one and
+    /// all three tables are identical.
+    fn soak(seed: u64, prog: &str, out: &mut Out) {
+        let ops: Vec<Vec<String>> = prog
+            .split(';')
+            .filter(|o| !o.is_empty())
+            .map(|o| o.split(',').map(|w| w.to_string()).collect())
+            .collect();
+        let (tx1, rx1) = unbounded::<BddNode>();
+        let (tx2, rx2) = unbounded::<BddNode>();
+        let mut relay = Bdd::with_sender_receiver(tx2, rx1);
+        let mut recv = Bdd::with_receiver(rx2);
+        let mut r = Rng::new(seed);
+        let yield_every = 1 + r.usize(3);
+        let producer = std::thread::spawn(move || -> Option<Vec<BddNode>> {
+            let mut bdd = Bdd::with_sender(tx1);
+            let mut hist = vec![Term::BOT, Term::TOP];
+            for (i, o) in ops.iter().enumerate() {
+                let w: Vec<&str> = o.iter().map(|s| s.as_str()).collect();
+                let t = apply_op(&mut bdd, &hist, &w)?;
+                hist.push(t);
+                if i % yield_every == 0 {
+                    std::thread::yield_now();
+                }
+            }
+            Some(bdd.nodes.clone())
+        });
+        let mut ok = true;
+        let mut polls = 0usize;
+        let mut mid = 0usize; // polls that saw a strictly partial mirror
+        let mut snapshots: Vec<(bool, Vec<BddNode>)> = Vec::new();
+        loop {
+            let done = producer.is_finished();
+            let on_relay = r.bool();
+            let b = if on_relay { &mut relay } else { &mut recv };
+            let len = b.nodes.len();
+            let t = match r.below(4) {
+                0 => len,
+                1 => len + r.usize(4),
+                2 => len.saturating_sub(1 + r.usize(2)),
+                _ => r.usize(40),
+            };
+            let found = b.recv(Term(t));
+            polls += 1;
+            ok &= found == (t < b.nodes.len());
+            ok &= recv.nodes.len() <= relay.nodes.len();
+            if relay.nodes.len() > 2 && !done {
+                mid += 1;
+            }
+            if polls % 7 == 0 && snapshots.len() < 64 {
+                snapshots.push((on_relay, if on_relay { relay.nodes.clone() } else { recv.nodes.clone() }));
+            }
+            if done {
+                break;
+            }
+        }
+        let Ok(Some(p)) = producer.join() else {
+            out.line("= bad-request");
+            out.line("~ bad-request");
+            return;
+        };
+        // drain
+        ok &= !relay.recv(Term(usize::MAX));
+        ok &= !recv.recv(Term(usize::MAX));
+        for (_, snap) in &snapshots {
+            ok &= snap.len() <= p.len() && snap[..] == p[..snap.len()];
+        }
+        let same = relay.nodes == p && recv.nodes == p;
+        out.line(&format!("= {}", if same { table(&p) } else { format!("P {} R {} V {}", table(&p), dump_nodes(&relay), dump_nodes(&recv)) }));
+        out.line(&format!("~ soak {}", if ok && same { "ok" } else { "violated" }));
+        out.line(&format!(
+            "# case stream soak=1 nodes={} polls={} midstream={}",
+            p.len() - 2,
+            polls.min(10),
+            mid.min(10)
+        ));
+    }
+}
